@@ -74,7 +74,8 @@ Gen make_desc(const eng::Raw& raw, bool plainNames, bool faShape, bool poolSymbo
 		size_t ar = faShape ? (si == 0 ? 0 : 1) : (poolSymbols ? (si < 2 ? 0 : si - 1) : si % 3);
 		for (size_t k = 0; k < ar; ++k) ch.push_back(g.states[r[3 + k] % ns]);
 		g.desc.transitions.insert(AutDescription::Transition(ch, g.syms[si], g.states[r[2] % ns]));
-		g.desc.symbols.insert(std::make_pair(g.syms[si], static_cast<int>(ar)));
+		// a symbol may be declared without a rank (the parser stores -1 for "Ops g h"): a quarter of them are
+		g.desc.symbols.insert(std::make_pair(g.syms[si], (!faShape && !poolSymbols && (gen::mix(h[4], si) % 4 == 0)) ? -1 : static_cast<int>(ar)));
 		if (ar == 0) g.hasNullary = true; else g.hasDeep = true;
 	}
 	for (auto& s : g.states) g.desc.states.insert(s);
@@ -87,10 +88,13 @@ Gen make_desc(const eng::Raw& raw, bool plainNames, bool faShape, bool poolSymbo
 std::string alt_text(const AutDescription& d, uint32_t style)
 {
 	std::ostringstream os;
-	auto ops = [&] { os << "Ops"; for (auto& s : d.symbols) os << (style % 2 ? "  " : " ") << s.first << ":" << s.second; os << "\n"; };
-	auto aut = [&] { os << "Automaton " << (d.name.empty() ? "anonymous" : d.name) << "\n"; };
-	auto sts = [&] { os << "States"; for (auto& s : d.states) os << " " << s << ((style / 2) % 2 ? ":0" : ""); os << "\n"; };
-	auto fin = [&] { os << "Final States"; for (auto& s : d.finalStates) os << " " << s; os << "  \n"; };
+	// every isspace() character separates header tokens: space, tab, vertical tab, form feed, carriage return
+	static const char* seps[] = {" ", "  ", "\t", " \t ", "\v", "\f", " \r ", "\t\v"};
+	const std::string sep = seps[(style / 4096) % 8];
+	auto ops = [&] { os << "Ops"; for (auto& s : d.symbols) { os << sep << s.first; if (s.second >= 0) os << ":" << s.second; } os << "\n"; };
+	auto aut = [&] { os << "Automaton" << sep << (d.name.empty() ? "anonymous" : d.name) << "\n"; };
+	auto sts = [&] { os << "States"; for (auto& s : d.states) os << sep << s << ((style / 2) % 2 ? ":0" : ""); os << "\n"; };
+	auto fin = [&] { os << "Final" << ((style / 32768) % 2 ? sep : std::string(" ")) << "States"; for (auto& s : d.finalStates) os << sep << s; os << "  \n"; };
 	switch ((style / 4) % 3) {
 		case 0: ops(); aut(); sts(); fin(); break;
 		case 1: aut(); fin(); os << "\n"; sts(); ops(); break;
@@ -185,7 +189,7 @@ void harness::run_case(const eng::Raw& raw, eng::Ctx& ctx)
 
 	// ---------- (a) description round trip
 	Gen g = make_desc(raw, false, false, false);
-	const std::string altStyle = alt_text(g.desc, h[5]);
+	const std::string altStyle = alt_text(g.desc, h[5] | (h[6] << 16));
 	ctx.describe(ser.Serialize(g.desc) + "--- alternative text\n" + altStyle);
 	ctx.nontrivial(g.hasNullary && g.hasDeep && g.punct);
 	{
